@@ -69,7 +69,7 @@ class Ev:
         return '%s(%s)' % (self.kind, expr_str(self.node)[:50])
 
 
-def effects(e):
+def effects(e, skip=frozenset()):
     """Primitive events of a full expression in evaluation order.
     load: an lvalue-to-rvalue read of memory through a pointer/array/member (node = the lvalue)
     store: `lhs op= rhs` (node = the assignment)
@@ -113,6 +113,8 @@ def effects(e):
             rv(x)
 
     def rv(x):
+        if x.get('id') in skip:
+            return      # already evaluated by preceding branch nodes (value-context && || ?:)
         k = x.get('k')
         if k == 'cast':
             rv(x['e'])
@@ -205,13 +207,13 @@ def node_effects(node):
     if node.kind == 'decl':
         d = node.decl
         if 'init' in d:
-            evs = effects(d['init'])
+            evs = effects(d['init'], node.skip)
             evs.append(Ev('declinit', d, lhs=d, rhs=d['init']))
             return evs
         return [Ev('declinit', d, lhs=d, rhs=None)]
     if node.expr is None:
         return []
-    return effects(node.expr)
+    return effects(node.expr, node.skip)
 
 
 def access(x):
